@@ -1,6 +1,7 @@
 //! xv — conformance harness binding the TLA+ specification in /verif/spec to the real xot crate.
 //! Sub-commands write / read ndjson; TLC is the judge of every event (see /verif/DESIGN.md).
 mod forest;
+mod observe;
 mod proj;
 mod rng;
 
@@ -155,6 +156,67 @@ fn forest_exec(args: &[String]) {
     }
 }
 
+/// Engine B: one JSON job per line {"st": state, "what": [...], "pfx": [...], "uris": [...], "pairs": [[a,b],...],
+/// "ign": [[[ns,ln],...],...]}; builds the state in a real Xot and logs the observations.
+fn observe_cmd(args: &[String]) {
+    let jobs = arg(args, "--jobs", "");
+    let out = arg(args, "--out", "/dev/stdout");
+    let mut f = BufWriter::new(std::fs::File::create(&out).expect("create out"));
+    let rd = std::io::BufReader::new(std::fs::File::open(&jobs).expect("open jobs"));
+    for line in rd.lines() {
+        let line = line.unwrap();
+        if line.trim().is_empty() {
+            continue;
+        }
+        let job: J = serde_json::from_str(&line).expect("job json");
+        let mut w = match World::build(&job["st"]) {
+            Ok(w) => w,
+            Err(e) => {
+                eprintln!("TOOLERROR cannot rebuild state: {e}: {line}");
+                std::process::exit(2);
+            }
+        };
+        let what: Vec<String> = job["what"].as_array().map(|a| a.iter().map(|x| x.as_str().unwrap_or("").to_string()).collect()).unwrap_or_default();
+        let strs = |k: &str| -> Vec<String> {
+            job[k].as_array().map(|a| a.iter().map(|x| x.as_str().unwrap_or("").to_string()).collect()).unwrap_or_default()
+        };
+        let mut ev = json!({"op": "observe", "what": what, "pfx": job["pfx"], "uris": job["uris"], "pairs": job["pairs"], "ign": job["ign"]});
+        let m = ev.as_object_mut().unwrap();
+        for k in ["pfx", "uris", "pairs", "ign"] {
+            if m[k].is_null() {
+                m.insert(k.into(), json!([]));
+            }
+        }
+        if what.iter().any(|x| x == "scope") {
+            let (p, u) = (strs("pfx"), strs("uris"));
+            m.insert("scope".into(), observe::observe_scope(&mut w, &p, &u));
+        }
+        if what.iter().any(|x| x == "eq") {
+            let pairs: Vec<(usize, usize)> = job["pairs"]
+                .as_array()
+                .map(|a| a.iter().map(|p| (p[0].as_u64().unwrap() as usize, p[1].as_u64().unwrap() as usize)).collect())
+                .unwrap_or_default();
+            let ign: Vec<Vec<(String, String)>> = job["ign"]
+                .as_array()
+                .map(|a| {
+                    a.iter()
+                        .map(|l| l.as_array().unwrap().iter().map(|n| (n[0].as_str().unwrap().to_string(), n[1].as_str().unwrap().to_string())).collect())
+                        .collect()
+                })
+                .unwrap_or_default();
+            m.insert("eq".into(), observe::observe_eq(&mut w, &pairs, &ign));
+        }
+        if what.iter().any(|x| x == "axes") {
+            m.insert("axes".into(), observe::observe_axes(&w));
+        }
+        // the state as the real Xot shows it after the (read-only) observations
+        let post = w.project(None);
+        m.insert("post".into(), post);
+        writeln!(f, "{}", ev).unwrap();
+    }
+    f.flush().unwrap();
+}
+
 fn main() {
     // panics inside the code under test are data: keep stderr quiet
     std::panic::set_hook(Box::new(|_| {}));
@@ -167,6 +229,7 @@ fn main() {
         "forest-drive" => forest_drive(&args[2..]),
         "forest-replay" => forest_replay(&args[2..]),
         "forest-exec" => forest_exec(&args[2..]),
+        "observe" => observe_cmd(&args[2..]),
         other => {
             eprintln!("unknown sub-command {other}");
             std::process::exit(2);
